@@ -30,7 +30,7 @@ def plan(tier, seed):
     # is built (props/_search_engine.run_generations): every answer as if it were the only search on that index
     for j in range(3):
         specs.append({"name": f"dropped-index-generations-{j}", "kind": "generations", "schemes": gen.SCHEMES[j::3],
-                      "rounds": 1 if tier == "quick" else 8, "generations": 60, "budget_s": 120})
+                      "rounds": 1 if tier == "quick" else 8, "generations": 120, "budget_s": 120})
     return specs
 
 
